@@ -167,6 +167,7 @@ structure Meta where
   fileSizeBytes : Nat
   sampRate : Nat × Nat           -- imSampRate as a fraction
   subset : Option (Nat × Nat)    -- snsSaveChanSubset when rewritten to "0:k"; `none` = left as it was
+  subsetOrig : Option (List Nat) -- snsSaveChanSubset_orig: the original channel indices it enumerates; `none` = key absent
   shank : Option Nat             -- the added key NP2.x_shank
   originalMeta : Bool            -- `original_meta` (absent in an original file = true)
 deriving Repr, DecidableEq
@@ -175,15 +176,19 @@ deriving Repr, DecidableEq
     meta_shank["acqApLfSy"][0] = 0; meta_shank["acqApLfSy"][1] = n_chns - 1
     meta_shank["snsApLfSy"][0] = 0; meta_shank["snsApLfSy"][1] = n_chns - 1
     meta_shank["fileSizeBytes"] = size; meta_shank["imSampRate"] = self.fs_lf
-    if self.np_version == "NP2.4": snsSaveChanSubset = f"0:{n_chns-1}"; nSavedChans = n_chns
-    meta_shank["original_meta"] = False; meta_shank[f"{np_version}_shank"] = int(sh[-1]) -/
-def writeMetaLf (v : Version) (m : Meta) (nChns size sh : Nat) : Meta :=
+    if self.np_version == "NP2.4": snsSaveChanSubset_orig = _get_savedChans_subset(chns)  (the runs of `chns`)
+                                   snsSaveChanSubset = f"0:{n_chns-1}"; nSavedChans = n_chns
+    meta_shank["original_meta"] = False; meta_shank[f"{np_version}_shank"] = int(sh[-1])
+Everything is computed inside the loop over shanks, from that shank's own channel list. -/
+def writeMetaLf (v : Version) (m : Meta) (chns : List Nat) (size sh : Nat) : Meta :=
+  let nChns := chns.length
   { m with
     acq := (0, nChns - 1, m.acq.2.2)
     sns := (0, nChns - 1, m.sns.2.2)
     fileSizeBytes := size
     sampRate := (CONV_FS_LF, 1)
     subset := if v = .np24 then some (0, nChns - 1) else m.subset
+    subsetOrig := if v = .np24 then some chns else m.subsetOrig
     nSavedChans := if v = .np24 then nChns else m.nSavedChans
     originalMeta := false
     shank := some sh }
@@ -215,7 +220,7 @@ def lfFileOf (v : Version) (m : Meta) (shankMap : List Nat) (rows sh : Nat) : Ex
   | .error e => .error e
   | .ok n =>
     .ok { sh := sh, chns := chns, rows := rows, nbytes := rows * n * 2,
-          md := writeMetaLf v m n (rows * n * 2) sh }
+          md := writeMetaLf v m chns (rows * n * 2) sh }
 
 /-- The LF files of one conversion.  `_prepare_files_NP24` loops over `np.unique(chn_info["shank"])`,
 `_prepare_files_NP21` does the same after `assert len(n_shanks) == 1`; then the window loop runs (its errors
